@@ -65,6 +65,8 @@ class Model:
         if op == "close":
             me.state = "closed"
             return {OK}, "closed"
+        if op == "addMedia":
+            return {OK}, None           # adding a transceiver has no signalling effect by itself
         if s == "closed":
             return {ISE}, None
         if op == "createOffer":
@@ -224,6 +226,8 @@ def run_history(hist):
                     w.run(pc.setRemoteDescription(damage(base, variant)))
                 elif op == "close":
                     w.run(pc.close())
+                elif op == "addMedia":
+                    pc.addTransceiver("video", direction="sendrecv")
             except InvalidStateError as e:
                 outcome, err = ISE, e
             except ValueError as e:
@@ -283,7 +287,18 @@ def symbols():
     return out
 
 
-def histories(depth, firsts=None):
+# non-initial start states: the tree is also walked from the state after a complete negotiation round followed by a
+# change of the media list (a transceiver added), with either side having made the first offer
+PREFIXES = {
+    "initial": [],
+    "round1-A-then-addMedia": [("A", "setLocalImplicit", None), ("B", "setRemoteOffer", None), ("B", "setLocalImplicit", None),
+                               ("A", "setRemoteAnswer", None), ("A", "addMedia", None)],
+    "round1-B-then-addMedia": [("B", "setLocalImplicit", None), ("A", "setRemoteOffer", None), ("A", "setLocalImplicit", None),
+                               ("B", "setRemoteAnswer", None), ("A", "addMedia", None)],
+}
+
+
+def histories(depth, firsts=None, prefix=()):
     """All maximal histories (length == depth) of enabled operations (optionally: only those starting with the symbols
     whose indices are given in `firsts`, one index per leading position)."""
     syms = symbols()
@@ -310,14 +325,17 @@ def histories(depth, firsts=None):
             hist.append(sym)
             rec(m2, hist)
             hist.pop()
-    rec(Model(), [])
-    return out
+    m0 = Model()
+    for who, op, variant in prefix:
+        m0.apply(who, op)
+    rec(m0, [])
+    return [list(prefix) + h for h in out]
 
 
 def tree_task(task):
-    depth, firsts = task
+    depth, firsts, pname = task
     T = Tally()
-    hs = histories(depth, firsts)
+    hs = histories(depth, firsts, PREFIXES[pname])
     n = 0
     shard = firsts[0] + firsts[1] if firsts else 0
     for i, h in enumerate(hs):
@@ -332,24 +350,29 @@ def tree_task(task):
     T.transitions = n * depth
     T.count("histories", n)
     if shard == 0 and hs:
-        T.sample(dict(kind="history", depth=depth, total_histories=len(hs), example=[list(x) for x in hs[len(hs) // 2]]), limit=1)
+        T.sample(dict(kind="history", start=pname, depth=depth, example=[list(x) for x in hs[len(hs) // 2]]), limit=3)
     return T
 
 
 def run(tier, seed):
     depth = 5 if tier == "quick" else 6
     nsym = len(symbols())
-    total = pmap("props.c14", "tree_task", [(depth, (i, j)) for i in range(nsym) for j in range(nsym)], seed=seed)
+    tasks = [(depth, (i, j), "initial") for i in range(nsym) for j in range(nsym)]
+    for pname in PREFIXES:
+        if pname != "initial":
+            tasks += [(depth - 2, (i, j), pname) for i in range(nsym) for j in range(nsym)]
+    total = pmap("props.c14", "tree_task", tasks, seed=seed)
     return result(
         PID, total,
-        rule="complete tree of call histories of length %d over both peers x {createOffer, createAnswer, setLocal(last own offer), "
+        rule="complete trees of call histories of length %d (from the initial state) and length %d-2 from two non-initial start states "
+             "(a completed negotiation round started by either peer, followed by addTransceiver) over both peers x {createOffer, createAnswer, setLocal(last own offer), "
              "setLocal(last own answer), setLocal() implicit, setRemote(peer's last offer), setRemote(peer's last answer), "
              "setRemote(answer with an m-section dropped / kind changed), setRemote(description without ice-ufrag / without rtcp-mux / "
              "answer with setup:actpass), close}; an operation is enabled when its argument exists; each maximal history is replayed "
              "on a fresh pair of real RTCPeerConnections (A: audio track + data channel, B: audio track) and after EVERY call the "
              "outcome class (ok / InvalidStateError / ValueError), signalingState, signalingstatechange events and - after a "
              "failure - unchanged signalingState / localDescription / remoteDescription are compared with a JSEP reference table. "
-             "states = histories (no merging: hidden implementation state is not in an abstract key)" % depth,
+             "states = histories (no merging: hidden implementation state is not in an abstract key)" % (depth, depth),
         assumptions=["fake ICE (aioice Connection replaced); createOffer while a remote offer is pending is left unconstrained",
                      "artefacts from an earlier negotiation round (stale) may be accepted or rejected with ValueError"],
         states=total.evaluations)
